@@ -9,6 +9,7 @@ require (
 	github.com/hashicorp/golang-lru v0.5.4
 	github.com/jensneuse/abstractlogger v0.0.4
 	github.com/tidwall/gjson v1.18.0
+	github.com/tidwall/sjson v1.2.5
 	github.com/wundergraph/astjson v1.1.0
 	github.com/wundergraph/graphql-go-tools/execution v0.0.0
 	github.com/wundergraph/graphql-go-tools/v2 v2.4.4
@@ -35,7 +36,6 @@ require (
 	github.com/stretchr/testify v1.11.1 // indirect
 	github.com/tidwall/match v1.1.1 // indirect
 	github.com/tidwall/pretty v1.2.1 // indirect
-	github.com/tidwall/sjson v1.2.5 // indirect
 	github.com/wundergraph/cosmo/router v0.0.0-20260611115430-e8a965a40952 // indirect
 	github.com/wundergraph/go-arena v1.3.0 // indirect
 	go.uber.org/multierr v1.11.0 // indirect
